@@ -28,6 +28,7 @@ RULE = (
     "very object that was bound; no value tagged for run A occurs in the arguments of run B. Non-trivial: >= 2 runs "
     "of a graph with a mutating node; distinct = (program shape, history kind)."
     ' Directed: a multi-output interrupt whose handler returns one shared dict object on every call; a value bound for a defaulted parameter of a node outside the graph-level selection (flat and nested).'
+    " Corners of the copying rule: a cached node on a runner with a cache (memory / disk) whose other input cannot be pickled (lock, lambda; bound or supplied), and container defaults holding an uncopyable member next to mutable state (equal runs must end alike, the declared default keeps its content)."
     " Also: a mapping node over a work list that is the inner function's signature default (mutable items, mutated by the node), repeated on same/fresh sync/async runners; histories of calls (with and without run-time select, bound name supplied or not) over a family of graphs derived from one ancestor, each call compared with the same call on a family built from scratch."
 )
 ASSUMPTIONS = ["the mutating functions are ours; expectations are computed from the spec, never from a first run"]
@@ -690,6 +691,126 @@ def handler_object_reuse(ctx, i):
     ctx.case({"handler_reuse": True, "emit": bool(emit), "outs": ask.outputs}, True)
 
 
+def unusual_defaults(ctx, i):
+    """Mutable signature defaults in the corners of the copying rule.
+    (a) a CACHED node on a runner that has a cache, whose other input can or cannot be pickled (a lock, a lambda, bound or
+        supplied): hit, ordinary miss or 'no key' - the function must never receive the declared default object itself.
+    (b) a plain container default (list / dict / set / tuple) holding something that cannot be deep-copied NEXT TO ordinary
+        mutable state the function mutates: every run with equal inputs ends the same way (refused with the clear
+        configuration error, or a pristine default) and the declared default keeps its content.
+    Flat and inside a nested graph; same runner, fresh runners, sync then async."""
+    from hypergraph import AsyncRunner, DiskCache, FunctionNode, Graph, InMemoryCache, SyncRunner
+
+    rng = ctx.rng
+    which = "cached" if i % 2 == 0 else "uncopyable"
+    nested = rng.random() < 0.4
+    runs = rng.randint(2, 4)
+    lock = threading.Lock()
+
+    if which == "cached":
+        extra_kind = rng.choice(["lock", "lambda", "plain", "plain"])
+        extra = {"lock": lock, "lambda": (lambda: 1), "plain": "p"}[extra_kind]
+        how = rng.choice(["bound", "supplied"])
+        default = {"list": ["seed"], "dict": {"items": ["seed"]}}[rng.choice(["list", "dict"])]
+        pristine = copy.deepcopy(default)
+
+        def record(item, extra, acc=default):
+            (acc if isinstance(acc, list) else acc["items"]).append(item)
+            return list(acc if isinstance(acc, list) else acc["items"])
+
+        node = FunctionNode(record, name="record", output_name="hist", cache=rng.random() < 0.8)
+        expected = ("completed", ["seed", "a"])
+        import tempfile
+
+        tmp = None
+        backend = rng.choice(["memory", "memory", "disk", "none"])
+        desc = f"cached={node.cache} backend={backend} extra={extra_kind}/{how}"
+    else:
+        hold = rng.choice(["lock", "generator", "nocopy"])
+
+        class _NoCopy:
+            def __deepcopy__(self, memo):
+                raise TypeError("this handle cannot be duplicated")
+
+        res = {"lock": lock, "generator": (j for j in range(3)), "nocopy": _NoCopy()}[hold]
+        shape = rng.choice(["dict", "list", "tuple", "set-in-dict"])
+        entries = []
+        if shape == "dict":
+            default = {"res": res, "entries": entries}
+        elif shape == "list":
+            default = [res, entries]
+        elif shape == "tuple":
+            default = (res, entries)
+        else:
+            default = {"res": {res} if hold != "generator" else [res], "entries": entries}
+
+        def record(item, acc=default):
+            e = acc["entries"] if isinstance(acc, dict) else acc[1]
+            e.append(item)
+            return list(e)
+
+        node = FunctionNode(record, name="record", output_name="hist")
+        extra_kind = how = None
+        backend = "none"
+        expected = None
+        desc = f"default {shape} holding {hold}"
+        pristine = None
+
+    g = Graph([node], name="inner_u")
+    if nested:
+        g = Graph([g.as_node(name="box")], name="outer_u")
+    provided = {"item": "a"}
+    if which == "cached":
+        if how == "bound":
+            g = g.bind(extra=extra)
+        else:
+            provided["extra"] = extra
+
+    def make_runner(kind, cache):
+        return (SyncRunner if kind == "sync" else AsyncRunner)(cache=cache) if cache is not None else (SyncRunner if kind == "sync" else AsyncRunner)()
+
+    import shutil
+    import tempfile
+
+    tmpdir = tempfile.mkdtemp(prefix="hgmon-c18-") if backend == "disk" else None
+    try:
+        cache = {"memory": InMemoryCache, "disk": (lambda: DiskCache(tmpdir)), "none": (lambda: None)}[backend]()
+        plan = rng.choice(["same", "fresh", "mixed"])
+        shared = {"sync": make_runner("sync", cache), "async": make_runner("async", cache)}
+        outcomes = []
+        for j in range(runs):
+            kind = "sync" if plan != "mixed" and rng.random() < 0.5 else ("sync", "async")[j % 2]
+            r = shared[kind] if plan != "fresh" else make_runner(kind, cache)
+            try:
+                res_ = r.run(g, dict(provided)) if kind == "sync" else asyncio.run(r.run(g, dict(provided)))
+                outcomes.append((res_.status.value, res_.values.get("hist")))
+            except Exception as e:  # noqa: BLE001
+                outcomes.append(("raised", type(e).__name__ + ":" + str(e).split("\n")[0][:80]))
+        ctx.obs["runs_checked"] += runs
+        ctx.obs["unusual_default_runs:" + which] += runs
+        case = {"program": desc, "nested": nested, "plan": plan, "runs": runs}
+        if which == "cached":
+            bad = [o for o in outcomes if o != expected]
+            if bad:
+                ctx.violation("C18:default-leaked:cached-node", f"{desc}: {runs} equal runs gave {core.short(outcomes, 300)}, each should be {expected}", case)
+            ctx.obs["defaults_checked"] += 1
+            if default != pristine:
+                ctx.violation("C18:defaults-mutated:cached-node", f"{desc}: the declared default became {default!r}", case)
+        else:
+            if any(o != outcomes[0] for o in outcomes[1:]):
+                ctx.violation("C18:default-leaked:uncopyable-member", f"{desc}: equal runs ended differently: {core.short(outcomes, 300)}", case)
+            elif outcomes[0][0] == "completed" and outcomes[0][1] != ["a"]:
+                ctx.violation("C18:default-leaked:uncopyable-member", f"{desc}: a run saw {outcomes[0][1]!r} instead of a pristine default", case)
+            ctx.obs["defaults_checked"] += 1
+            if entries:
+                ctx.violation("C18:defaults-mutated:uncopyable-member", f"{desc}: the declared default's own list became {entries!r}", case)
+            ctx.obs["uncopyable_default:" + outcomes[0][0]] += 1
+    finally:
+        if tmpdir:
+            shutil.rmtree(tmpdir, ignore_errors=True)
+    ctx.case({"unusual": which, "d": desc, "nested": nested}, True)
+
+
 def run(ctx):
     n = 600 if ctx.tier == "quick" else 12000
     core.WARM_P = 0.0
@@ -707,6 +828,8 @@ def run(ctx):
             bound_outside_selection(ctx, i)
         elif i % 24 == 10:
             mapped_default_items(ctx, i)
+        elif i % 12 == 3:
+            unusual_defaults(ctx, i // 12)
         elif i % 12 == 5:
             derived_family_history(ctx, i)
         elif i % 12 == 9:
